@@ -75,10 +75,10 @@ Definition act_eqb (a b : act) : bool :=
   match a, b with AAdd, AAdd | ARemove, ARemove | AOther, AOther => true | _, _ => false end.
 Definition ures_eqb (a b : ures) : bool :=
   match a, b with RSuccess, RSuccess | RServerError, RServerError => true | _, _ => false end.
-Fixpoint entries_eqb (a b : list (N * act * ures)) : bool :=
+Fixpoint entries_eqb (a b : list (rkey * act * ures)) : bool :=
   match a, b with
   | [], [] => true
-  | (k, x, r) :: t, (k', x', r') :: t' => (k =? k') && act_eqb x x' && ures_eqb r r' && entries_eqb t t'
+  | (k, x, r) :: t, (k', x', r') :: t' => rkey_eqb k k' && act_eqb x x' && ures_eqb r r' && entries_eqb t t'
   | _, _ => false
   end.
 Definition rout_eqb (a b : rout) : bool :=
